@@ -9,6 +9,7 @@
 package refmodel
 
 import (
+	"errors"
 	"fmt"
 	"math/big"
 	"regexp"
@@ -16,6 +17,7 @@ import (
 	"strconv"
 	"strings"
 	"unicode/utf8"
+	"unsafe"
 
 	"verif/jv"
 )
@@ -81,6 +83,47 @@ type Model struct {
 	regexps map[string]*regexp.Regexp
 	// Trace, if non-nil, receives every schema node evaluated against some instance.
 	Trace func(n *Node)
+
+	// Per top-level evaluation: results are memoised by (schema node, instance node, dynamic
+	// scope), so that a schema whose in-place applicators fan out over shared definitions (a DAG
+	// with exponentially many paths) is evaluated in time proportional to its size. NaiveCost is
+	// the number of subschema evaluations an evaluator WITHOUT such a memo performs for the last
+	// top-level call (what the library does); callers use it to leave out cases that would take
+	// the library minutes.
+	NaiveCost float64
+	depth     int
+	memo      map[memoKey]memoEntry
+	work      int
+}
+
+type memoKey struct {
+	n     *Node
+	inst  *jv.V
+	scope string
+}
+
+type memoEntry struct {
+	r    Result
+	cost float64
+}
+
+// ErrBudget: the evaluation did not finish within the work budget (even with the memo).
+var ErrBudget = errors.New("model: evaluation budget exceeded")
+
+const workBudget = 4_000_000
+
+func scopeKey(scope []*Node) string {
+	if len(scope) == 0 {
+		return ""
+	}
+	b := make([]byte, 0, len(scope)*8)
+	for _, n := range scope {
+		p := uintptr(unsafe.Pointer(n))
+		for i := 0; i < 8; i++ {
+			b = append(b, byte(p>>(8*i)))
+		}
+	}
+	return string(b)
 }
 
 // keyword tables (union of both drafts: a location is a subschema location if the keyword
@@ -601,6 +644,35 @@ func intKW(v *jv.V, kw string) (int, bool) {
 
 // Eval evaluates schema node n against inst under the dynamic scope (outermost first).
 func (m *Model) Eval(n *Node, inst *jv.V, scope []*Node) (Result, error) {
+	if m.depth == 0 {
+		m.memo, m.work, m.NaiveCost = map[memoKey]memoEntry{}, 0, 0
+	}
+	m.depth++
+	defer func() { m.depth-- }()
+	m.work++
+	if m.work > workBudget {
+		return Result{}, ErrBudget
+	}
+	if m.Trace != nil {
+		// tracing callers want every visit: no memo
+		m.NaiveCost++
+		return m.eval(n, inst, scope)
+	}
+	key := memoKey{n, inst, scopeKey(scope)}
+	if e, ok := m.memo[key]; ok {
+		m.NaiveCost += e.cost
+		return e.r, nil
+	}
+	before := m.NaiveCost
+	m.NaiveCost++
+	r, err := m.eval(n, inst, scope)
+	if err == nil {
+		m.memo[key] = memoEntry{r, m.NaiveCost - before}
+	}
+	return r, err
+}
+
+func (m *Model) eval(n *Node, inst *jv.V, scope []*Node) (Result, error) {
 	if m.Trace != nil {
 		m.Trace(n)
 	}
